@@ -38,6 +38,18 @@ func spec_render(s Snippet, ctx context.Context) string {
 //@   pure
 //@   note interface method: assumed a deterministic observer without side effects
 
+//@ func Args.Args
+//@   props C09
+//@   lit 1 ensures !stopped ==> len(out) == len(args) && len(out2) == len(out) && (forall j int :: 0 <= j && j < len(out) ==> has(args, out[j]) && out2[j] == args[out[j]]) && (forall k string :: has(args, k) ==> elem(k, out))
+//@   loop 1 invariant !stopped && eq(out, ks1[:it1]) && len(out2) == len(out)
+//@   loop 1 invariant forall j int :: 0 <= j && j < len(out2) ==> out2[j] == args[out[j]]
+//@   note the map form of template arguments hands EVERY entry to T() exactly once with its value - entries bound to nil included (a nil binding renders nothing; only an UNBOUND placeholder may panic)
+
+//@ func arg.Args
+//@   props C09
+//@   requires a != nil
+//@   lit 1 ensures !stopped ==> len(out) == 1 && len(out2) == 1 && out[0] == a.name && out2[0] == a.snippet
+
 //@ func Block.Frag
 //@   props C09
 //@   lit 1 yields string(v)
